@@ -1172,5 +1172,171 @@ FUNCS['Matrix_NewFromSequence'] = {
         'PySequence_Size': seq_size, 'PySequence_Fast': seq_fast,
         'PySequence_Fast_GET_ITEM': seq_fast_get_item})}
 
+# ------------------------------------------------ constructor from a buffer
+FMT4 = ['l', 'd', 'Zd', 'i']
+
+
+class FmtV:
+    """the format string of an imported buffer: only compared with literals"""
+
+    def __init__(self, name):
+        self.name = name
+
+
+def get_buffer(ex, st, n, args):
+    """PyObject_GetBuffer(obj, view, PyBUF_FORMAT|PyBUF_STRIDES): -1 with an
+    exception, or 0 with *view filled: ndim >= 0, shape[k] >= 0 and strides[k]
+    for k < ndim, itemsize > 0, a format string, and buf such that
+    buf + sum_k idx[k]*strides[k] is the address of element idx for every
+    in-range multi-index"""
+    if st.pure:
+        raise Impure()
+    view = ex.ev(args[1], st)
+    if not isinstance(view, PtrV) or view.region is None:
+        raise Unsupported('PyObject_GetBuffer into %r' % (view,))
+    fails = det_bool(st, n, 'GetBuffer_fails')
+    d = ex.decide(st, fails)
+    if d is None:
+        raise NeedFork(fails)
+    if d:
+        st.exc = 'PyExc_BufferError'
+        return IntV(z3.IntVal(-1), 'int')
+    nd = z3.Int('view.ndim')
+    s0, s1 = z3.Int('view.shape0'), z3.Int('view.shape1')
+    t0, t1 = z3.Int('view.stride0'), z3.Int('view.stride1')
+    isz = z3.Int('view.itemsize')
+    st.pc.append(z3.And(nd >= 0, nd <= 64, s0 >= 0, s1 >= 0, isz > 0))
+    foreign = Region('foreign', 'exporter memory', None)
+    st.mem[view.region.uid] = StructV('Py_buffer', {
+        'ndim': IntV(nd, 'int'), 'itemsize': IntV(isz, 'long'),
+        'format': FmtV('view.format'),
+        'shape': ArrV([IntV(s0, 'long'), IntV(s1, 'long')]),
+        'strides': ArrV([IntV(t0, 'long'), IntV(t1, 'long')]),
+        'buf': PtrV(foreign, 0, 'void')})
+    st.ghost['import'] = {'nd': nd, 's0': s0, 's1': s1, 't0': t0, 't1': t1}
+    ex.trusted.add('buffer protocol: an exporter that honours '
+                   'PyBUF_STRIDES describes every element address as buf + '
+                   'sum idx[k]*strides[k] (CPython documentation)')
+    return IntV(z3.IntVal(0), 'int')
+
+
+def c_strcmp(ex, st, n, args):
+    a = ex.ev(args[0], st)
+    b = ex.ev(args[1], st)
+    if isinstance(a, StrV) and isinstance(b, StrV):
+        return IntV(z3.IntVal(0 if a.s == b.s else 1), 'int')
+    if isinstance(b, FmtV):
+        a, b = b, a
+    if isinstance(a, FmtV) and isinstance(b, StrV):
+        eq = z3.Bool('%s=="%s"' % (a.name, b.s))
+        key = ('fmtlits', a.name)
+        seen = ex.site_counts.setdefault(key, {})
+        for lit, e2 in seen.items():
+            if lit != b.s:
+                ex.axioms.append(z3.Not(z3.And(eq, e2)))
+        seen[b.s] = eq
+        return IntV(z3.If(eq, 0, 1), 'int')
+    raise Unsupported('strcmp of %r and %r' % (a, b))
+
+
+def read_foreign(ex, st, p, ty, n):
+    """a load from the exporter's memory: remember the address"""
+    st.ghost['last_foreign_load'] = (p.off, n.get('line'))
+    t = CT(ty)
+    if t.kind == 'int':
+        return ex.fresh_int('imported', t.s if t.s in ('int', 'long', 'char')
+                            else 'long')
+    return FltV(ex.fresh_real('imported'), ty)
+
+
+def write_imported(ex, st, p, v, ty, n):
+    """a store into the matrix under construction: the element stored at
+    position cnt of the column-major result comes from the exporter's element
+    (I, J) with cnt == I + J*shape[0]: its address is buf + I*strides[0]
+    (+ J*strides[1] for a two-dimensional exporter).  The witnesses I, J are
+    looked for among the integer program variables."""
+    imp = st.ghost.get('import')
+    last = st.ghost.get('last_foreign_load')
+    r = p.region
+    if imp is None or last is None or r.owner is None or not getattr(
+            r.owner, 'fresh', False):
+        return
+    es = z3.If(r.owner.id == 2, 16, 8)
+    off = last[0]
+    nd, s0, s1, t0, t1 = (imp[k] for k in ('nd', 's0', 's1', 't0', 't1'))
+    ncols = z3.If(nd == 2, s1, 1)
+    ints = []
+    for k_, v_ in st.vars.items():
+        if isinstance(v_, IntV) and not z3.is_int_value(z3.simplify(v_.t)):
+            ints.append(v_.t)
+    ints.append(z3.IntVal(0))
+    goal = None
+    pc = st.path()
+    for I in ints:
+        for J in ints:
+            g = z3.And(p.off == (I + J * s0) * es, I >= 0, I < s0, J >= 0,
+                       J < ncols,
+                       off == I * t0 + z3.If(nd == 2, J * t1, 0))
+            if ex.check(pc, [z3.Not(g)]) == z3.unsat:
+                goal = g
+                break
+        if goal is not None:
+            break
+    if goal is None:
+        I, J = z3.Int('I?'), z3.Int('J?')
+        goal = z3.Exists([I, J], z3.And(
+            p.off == (I + J * s0) * es, I >= 0, I < s0, J >= 0, J < ncols,
+            off == I * t0 + z3.If(nd == 2, J * t1, 0)))
+    ex.oblige(st, 'import-address', goal, n,
+              text='element (I,J) of the imported matrix is read from buf + '
+              'I*strides[0] + J*strides[1]: ' + cast_mod.src_of(ex.tu, n))
+
+
+def init_from_buffer(ex, st, params):
+    o = ex.new_obj('obj')
+    st.vars[params[0]['id']] = PtrV(None, 0, 'PyObject', obj=o)
+    idv = ex.fresh_int('id', 'int')
+    ex.axioms.append(z3.And(idv.t >= -1, idv.t <= 2))
+    st.vars[params[1]['id']] = idv
+    nd = Region('local', 'ndim_out', z3.IntVal(4))
+    st.vars[params[2]['id']] = PtrV(nd, 0, 'int')
+    ex.trusted.add('precondition of Matrix_NewFromPyBuffer: -1 <= id <= 2, '
+                   'ndim points to an int')
+
+
+def post_from_buffer(ex, finished, extra_obs):
+    ob = mk_ob(ex, extra_obs)
+    nok = 0
+    idv = z3.Int('id')
+    for st, kind, val in finished:
+        pc = st.path()
+        if is_error(val) or not isinstance(val, PtrV) or val.obj is None:
+            continue
+        if val.null is not None:
+            pc = pc + [z3.Not(val.null)]
+        imp = st.ghost.get('import')
+        if imp is None:
+            continue
+        nok += 1
+        r = val.obj
+        ob('constructor-postcondition', pc, z3.And(
+            r.ismat, r.nrows == imp['s0'],
+            r.ncols == z3.If(imp['nd'] == 2, imp['s1'], 1),
+            z3.Implies(idv >= 0, r.id == idv)),
+           'Matrix_NewFromPyBuffer returns a shape[0] by shape[1] (by 1 for '
+           'a one-dimensional exporter) matrix of the requested typecode')
+    ob('covered', [], z3.BoolVal(nok > 0), 'a success path exists')
+    return {'success_paths': nok}
+
+
+FUNCS['Matrix_NewFromPyBuffer'] = {
+    'init': init_from_buffer, 'post': post_from_buffer,
+    'externs': dict(COMMON, **{
+        'PyObject_GetBuffer': get_buffer, 'strcmp': c_strcmp,
+        'PyBuffer_Release': lambda ex, st, n, a: Opaque('void'),
+        'read:foreign': read_foreign, 'write:matbuf': write_imported,
+        'global:FMT_STR': lambda ex, st, n: ArrV([StrV(x) for x in FMT4])}),
+    'config': {'small_malloc_succeeds': True}}
+
 FUNCS['matrix_subscr']['externs'] = dict(COMMON, **{
     'create_indexlist': create_indexlist, 'write_num[]': write_num_gather})
